@@ -83,6 +83,67 @@ def h_send(ex, state, entry, addr=128, dll='j1939-21', sym_contender=False):
     ex.witness()
 
 
+def h_send_reentrant(ex, scene, addr, entry='send_pgn'):
+    """a send entry point is exercised WHILE the CA is inside the send call of one of its own claim frames (a reply or
+    request handled before that call returns, or another application thread): whatever goes out carries the address the CA is
+    entitled to at that moment - nothing from 254, nothing during a veto wait.
+    scene: 'start' (first claim) | 'lose_aac' (operational arbitrary-address-capable CA loses: claim for the next address)
+           | 'lose_fixed' (operational fixed CA loses: cannot-claim frame)"""
+    w = W.World(ex, mode='interleave')
+    n = w.add_node('S')
+    aac = scene == 'lose_aac'
+    name = j1939.Name(arbitrary_address_capable=1 if aac else 0, industry_group=2, function=130, manufacturer_code=700, identity_number=77)
+    ca = j1939.ControllerApplication(name, addr)
+    n.ecu.add_ca(controller_application=ca)
+    attempts = []
+    armed = {'on': scene == 'start'}
+    prio = ex.fresh_int('prio', 0, 7)
+    pf = ex.fresh_int('pf', 0, 255)
+    ps = ex.fresh_int('ps', 0, 255)
+
+    def hook(f):
+        fld = ids.id_fields(f['id'])
+        if f['src'] != 'S' or not armed['on'] or not bool(fld['pf'] == 0xEE) or hook.busy:
+            return
+        hook.busy = True
+        k = len(w.log)
+        raised = None
+        try:
+            if entry == 'send_pgn':
+                ca.send_pgn(0, pf, ps, prio, sym_payload(ex, 'b', 5))
+            elif entry == 'send_message':
+                ca.send_message(prio, pf * 256 + ps, sym_payload(ex, 'b', 8))
+            else:
+                ca.send_request(0, pf * 256 + ps, ex.fresh_int('dest', 0, 255))
+        except RuntimeError as e:
+            raised = e
+        attempts.append({'claim_sa': int(fld['sa']), 'raised': raised, 'frames': w.log[k:]})
+        hook.busy = False
+    hook.busy = False
+    w.frame_hooks.append(hook)
+    ca.start(0.01)
+    w.run(until=w.now + T('8/10'))
+    if scene != 'start':
+        armed['on'] = True
+        low = j1939.Name(arbitrary_address_capable=0, identity_number=1).value
+        w.inject(n, (6 << 26) | (0xEE << 16) | (0xFF << 8) | addr, ids.name_bytes(low))
+        w.run(until=w.now + T('8/10'))
+    ex.claim('reentrant.scene_reached', len(attempts) >= 1, {'scene': scene, 'attempts': len(attempts)})
+    for a in attempts:
+        info = {'scene': scene, 'entry': entry, 'claim_from': a['claim_sa'], 'raised': a['raised'] is not None, 'frames': len(a['frames'])}
+        entitled_now = a['claim_sa'] != 254 and not 128 <= a['claim_sa'] <= 247     # immediate range: operational at once
+        for f in a['frames']:
+            fld = ids.id_fields(f['id'])
+            is_req_claim = sym_and(fld['sa'] == 254, fld['pf'] == 0xEA, len(f['data']) == 3, sym_eq_seq(f['data'], [0x00, 0xEE, 0x00]))
+            if entitled_now:
+                ex.claim('reentrant.source_is_the_claimed_address', sym_or(fld['sa'] == a['claim_sa'], is_req_claim), dict(info, id=f['id']))
+            else:
+                ex.claim('reentrant.no_application_frame_without_address', is_req_claim, dict(info, id=f['id']))
+        if not entitled_now and entry != 'send_request':
+            ex.claim('reentrant.raises_without_address', a['raised'] is not None, info)
+    ex.witness()
+
+
 def jobs(tier):
     out = []
     for state in CA_STATES:
@@ -98,6 +159,10 @@ def jobs(tier):
         for state in ('lost_waiting', 'moved', 'moved_lost_waiting') + (('moved_twice',) if addr0 == 100 else ()):
             for entry in ('send_pgn', 'send_message', 'send_request'):
                 out.append(Job('C13', 'c13:h_send', {'state': state, 'entry': entry, 'addr': addr0}, W=40, wall=120, validate=1))
+    # a send entry point exercised while the CA is inside the send call of one of its own claim frames
+    for scene, addr in (('start', 128), ('start', 10), ('lose_aac', 128), ('lose_aac', 100), ('lose_fixed', 128), ('lose_fixed', 10)):
+        for entry in ('send_pgn', 'send_message', 'send_request'):
+            out.append(Job('C13', 'c13:h_send_reentrant', {'scene': scene, 'addr': addr, 'entry': entry}, W=40, wall=120, validate=1))
     # the contender that takes the address away has a symbolic NAME (any value lower than ours)
     for state in ('lost_waiting', 'moved', 'moved_lost_waiting', 'moved_twice', 'cannot_claim'):
         for entry in ('send_pgn', 'send_message', 'send_request'):
@@ -133,7 +198,7 @@ def meta(tier):
     return {
         'bounds': ['claim histories ' + str(CA_STATES) + ' reached by the real claim procedure (contending claims injected with a lower NAME)',
                    'entry points ' + str(ENTRIES) + '; PGN (data page, PDU format, PDU specific), priority, destination, payload, SPN/FMI, pointer symbolic',
-                   'preferred address 128 (veto range) / 10 (immediate range); 0, 100, 252, 253 for selected histories' + ('' if tier == 'quick' else '; thorough: every history x entry point on 0, 1, 100, 127, 128, 200, 246, 247, 251, 252, both data link layers') + ',', 'NAME of the contender that takes the address away: symbolic, any valid 64-bit NAME below ours (extra jobs)'],
+                   'preferred address 128 (veto range) / 10 (immediate range); 0, 100, 252, 253 for selected histories' + ('' if tier == 'quick' else '; thorough: every history x entry point on 0, 1, 100, 127, 128, 200, 246, 247, 251, 252, both data link layers') + ',', 'NAME of the contender that takes the address away: symbolic, any valid 64-bit NAME below ours (extra jobs)', 'send entry points exercised from inside the send call of the CA\'s own claim frames (first claim, claim for the next address, cannot-claim)'],
         'outside': ['other preferred addresses', 'J1939-22: only send_pgn / send_request'],
         'assumptions': ['the cyclic DM1 sender runs from the timer: only "no DM1 frame while not operational" is claimed for it (that the exception then ends the job thread is recorded as an observation)'],
     }
